@@ -1667,3 +1667,523 @@ Proof.
     intros E; apply R; [discriminate|auto].
   - apply R; [discriminate|exact G].
 Qed.
+
+(* ---- unsolicited data is gated by the integrity poll ------------------------------------------------ *)
+
+Definition unsol_evidence (src : N) (x : ms_obs) : Prop :=
+  match x with
+  | MsOCb _ a MsRtUnsol _ => a = src
+  | MsOUnsol _ a _ _ => a = src
+  | _ => False
+  end.
+
+Definition sched_obs (x : ms_obs) : Prop :=
+  match x with
+  | MsORes _ _ _ | MsOStart _ _ _ _ _ | MsOTx _ _ | MsOTxLink _ _ _ | MsOSleep _ _ | MsOStall _ => True
+  | _ => False
+  end.
+
+Lemma schedule_obs st st' o : ms_schedule st = (st', o) -> Forall sched_obs o.
+Proof.
+  unfold ms_schedule. destruct (ms_map_next_task st) as [[st1 o1] r] eqn:Em.
+  apply map_next_task_res in Em.
+  assert (R : Forall sched_obs o1) by (revert Em; apply Forall_impl; intros x; destruct x; cbn; auto).
+  destruct r as [addr t|nb| |]; try (intros H; injection H as <- <-; apply Forall_app; split; [exact R|repeat constructor]).
+  unfold ms_start_task.
+  destruct t; try (intros H; injection H as <- <-; apply Forall_app; split; [exact R|repeat constructor]).
+  all: unfold ms_send_request; destruct (ms_find_assoc addr (ms_m_assocs st1));
+    intros H; injection H as <- <-; apply Forall_app; split; try exact R; repeat constructor.
+Qed.
+
+Lemma sched_obs_not_evidence src o x : Forall sched_obs o -> In x o -> unsol_evidence src x -> False.
+Proof.
+  intros F Hin. rewrite Forall_forall in F. specialize (F x Hin). destruct x; cbn in *; auto.
+Qed.
+
+Lemma sched_obs_not_seen o t A : Forall sched_obs o -> ~ In (MsORestartSeen t A) o.
+Proof. intros F Hin. rewrite Forall_forall in F. exact (F _ Hin). Qed.
+
+Lemma touch_find st src a : ms_find_assoc src (ms_m_assocs st) = Some a ->
+  ms_find_assoc src (ms_m_assocs (ms_touch st src)) = Some (ms_link_activity (ms_m_now st) a).
+Proof.
+  intros Hf. unfold ms_touch, ms_update_assoc. rewrite Hf. cbn [fst ms_set_assocs ms_m_assocs].
+  pose proof (find_assoc_some _ _ _ Hf) as [Ia Ea].
+  apply find_put; [|exact Ea]. rewrite <- Ea. apply in_map. exact Ia.
+Qed.
+
+(* whatever the session is doing when an unsolicited response arrives, it is handed to
+   Association::handle_unsolicited_response of the association it comes from; everything else the
+   step emits is the scheduler's *)
+Lemma on_rx_unsol st src f a st' o :
+  ms_r_uns f = true -> ms_find_assoc src (ms_m_assocs st) = Some a ->
+  ms_on_rx st src (MsRxResp f) = (st', o) ->
+  o = [] \/
+  exists a1 ou rest, ms_handle_unsolicited (ms_m_now st) f (ms_link_activity (ms_m_now st) a) = (a1, ou) /\
+                     o = ou ++ rest /\
+                     Forall (fun x => sched_obs x \/ match x with MsOLinkEnd _ _ => True | _ => False end) rest.
+Proof.
+  intros Hu Hf. pose proof (touch_find _ _ _ Hf) as Ht.
+  assert (U : forall st1 o1, ms_unsolicited (ms_touch st src) src f = (st1, o1) ->
+              exists a1, ms_handle_unsolicited (ms_m_now st) f (ms_link_activity (ms_m_now st) a) = (a1, o1)).
+  { intros st1 o1. unfold ms_unsolicited, ms_update_assoc. rewrite Ht.
+    replace (ms_m_now (ms_touch st src)) with (ms_m_now st)
+      by (unfold ms_touch, ms_update_assoc; rewrite Hf; reflexivity).
+    destruct (ms_handle_unsolicited _ _ _) as [a1 ou]. intros H; inversion H; subst. exists a1. reflexivity. }
+  unfold ms_on_rx.
+  destruct (ms_m_phase st) as [|u|[dest t k fc0 seq dl|dest t seq first dl|dest p dl]|].
+  - intros H; injection H as <- <-. left; reflexivity.
+  - unfold ms_rx_idle. rewrite Hu.
+    destruct (ms_unsolicited (ms_touch st src) src f) as [st1 o1] eqn:Eu.
+    destruct (ms_task_done st1) as [st2 o2] eqn:Ed. intros H; injection H as <- <-.
+    destruct (U _ _ eq_refl) as (a1 & Ha1). right. exists a1, o1, o2. split; [exact Ha1|]. split; [reflexivity|].
+    unfold ms_task_done in Ed. apply schedule_obs in Ed. revert Ed. apply Forall_impl. auto.
+  - unfold ms_rx_nonread. rewrite Hu. intros Eu. destruct (U _ _ Eu) as (a1 & Ha1).
+    right. exists a1, o, []. split; [exact Ha1|]. split; [rewrite app_nil_r; reflexivity|constructor].
+  - unfold ms_rx_read. rewrite Hu. intros Eu. destruct (U _ _ Eu) as (a1 & Ha1).
+    right. exists a1, o, []. split; [exact Ha1|]. split; [rewrite app_nil_r; reflexivity|constructor].
+  - unfold ms_rx_link. rewrite Hu.
+    destruct (ms_unsolicited (ms_touch st src) src f) as [st1 o1] eqn:Eu.
+    destruct (ms_task_done st1) as [st2 o2] eqn:Ed. intros H; injection H as <- <-.
+    destruct (U _ _ eq_refl) as (a1 & Ha1). right.
+    eexists a1, o1, _. split; [exact Ha1|]. split; [reflexivity|].
+    unfold ms_task_done in Ed. apply schedule_obs in Ed.
+    apply Forall_app; split.
+    + destruct p; cbn [app]; repeat (apply Forall_cons || apply Forall_nil); cbn; auto.
+    + revert Ed. apply Forall_impl. auto.
+  - intros H; injection H as <- <-. left; reflexivity.
+Qed.
+
+(* C17, third sentence, over any history: if the step that processes a data-bearing unsolicited
+   response from `src` delivers it to the handler (OCb .. unsol) or records it as accepted (OUnsol,
+   which is also the only situation in which it is confirmed, see unsol_confirm_needs_accept), then
+   the integrity poll of `src` completed earlier in this connection and no restart indication was
+   seen since - not even in this fragment *)
+Theorem unsol_gated : forall fuel evs st h src f a st' o,
+  ms_run fuel ms_m_init evs = (st, h) ->
+  ms_mstep fuel st (MsERx src (MsRxResp f)) = (st', o) ->
+  ms_r_uns f = true -> ms_has_objects f = true ->
+  ms_find_assoc src (ms_m_assocs st) = Some a -> ms_cl_any (ms_c_integrity (ms_a_cfg a)) = true ->
+  (exists x, In x o /\ unsol_evidence src x) ->
+  hist HG src h = true /\ ~ In (MsORestartSeen (ms_m_now st) src) o.
+Proof.
+  intros fuel evs st h src f a st' o Hr Hs Hu Hobj Hf Hcfg (x & Hin & Hx).
+  destruct (run_from_init _ _ _ _ Hr) as [[IA _] _].
+  pose proof (find_assoc_some _ _ _ Hf) as [Ia Ea].
+  unfold ms_mstep in Hs.
+  assert (Hrx : ms_on_rx st src (MsRxResp f) = (st', o)).
+  { destruct (ms_m_phase st) eqn:Ph; try exact Hs.
+    injection Hs as <- <-. destruct Hin. }
+  destruct (on_rx_unsol _ _ _ _ _ _ Hu Hf Hrx) as [->|(a1 & ou & rest & Hh & -> & Fr)]; [destruct Hin|].
+  assert (Hrest : forall y, In y rest -> unsol_evidence src y -> False).
+  { intros y Hy. rewrite Forall_forall in Fr. destruct (Fr y Hy) as [S|S]; destruct y; cbn in *; auto. }
+  assert (Hou : In x ou).
+  { apply in_app_or in Hin as [H1|H1]; [exact H1|exfalso; eapply Hrest; eauto]. }
+  pose proof (unsol_gated_step _ _ _ _ _ Hh Hobj) as G. cbn [ms_link_activity ms_a_cfg ms_a_addr] in G.
+  destruct G as [Gd Gs]; [exact Hcfg| |].
+  { exists x. split; [exact Hou|]. destruct x; cbn in Hx |- *; auto. destruct rt; auto. }
+  split.
+  - rewrite <- Ea. apply (inv_flags _ _ IA a HG Ia). exact Gd.
+  - rewrite Ea in Gs. intros Hbad. apply in_app_or in Hbad as [H1|H1]; [exact (Gs H1)|].
+    rewrite Forall_forall in Fr. destruct (Fr _ H1) as [S|S]; exact S.
+Qed.
+
+(* a CONFIRM for an unsolicited response is written only when the response was accepted *)
+Theorem unsol_confirm_needs_accept : forall now f a a' o,
+  ms_handle_unsolicited now f a = (a', o) ->
+  In (MsOTx now (ms_confirm_unsol_bytes (ms_r_seq f))) o ->
+  exists dup, In (MsOUnsol now (ms_a_addr a) dup (ms_r_seq f)) o.
+Proof.
+  intros now f a a' o. unfold ms_handle_unsolicited.
+  destruct (ms_process_iin now f a) as [a1 seen] eqn:E.
+  pose proof (process_iin_done _ _ _ _ _ E) as (_ & Ha & _ & Hs).
+  destruct (negb _).
+  { intros H; inversion H; subst. intros Hin. exfalso. apply in_app_or in Hin as [Hin|[Hin|[]]]; [|discriminate].
+    apply Hs in Hin. discriminate. }
+  destruct (negb _).
+  { intros H; inversion H; subst. intros Hin. exfalso. apply in_app_or in Hin as [Hin|[Hin|[]]]; [|discriminate].
+    apply Hs in Hin. discriminate. }
+  intros H; inversion H; subst. intros _. rewrite Ha.
+  destruct (match ms_a_last_unsol a1 with Some old => _ | None => false end).
+  - exists true. apply in_or_app. right. apply in_or_app. left. left. reflexivity.
+  - exists false. apply in_or_app. right. apply in_or_app. left. apply in_or_app. right. left. reflexivity.
+Qed.
+
+(* ================================================================================================
+   7. C19 — one request at a time, sleeping into the future, no busy loop
+   ================================================================================================ *)
+
+(* whenever a request (application task or link status) starts, none is outstanding: the last
+   start before it, if any, has been followed by its completion *)
+Theorem one_outstanding : forall fuel evs st h h1 x h2,
+  ms_run fuel ms_m_init evs = (st, h) -> h = h1 ++ x :: h2 ->
+  match x with MsOStart _ _ _ _ _ | MsOTxLink _ _ _ => outstanding h1 = false | _ => True end.
+Proof.
+  intros fuel evs st h h1 x h2 Hr Hh. pose proof (startup_order _ _ _ _ _ _ _ Hr Hh) as G.
+  destruct x; auto; exact (proj1 G).
+Qed.
+
+(* whenever the master goes to sleep until a deadline, the deadline is in the future *)
+Theorem notbefore_is_future : forall fuel evs st h h1 t u h2,
+  ms_run fuel ms_m_init evs = (st, h) -> h = h1 ++ MsOSleep t (Some u) :: h2 -> t < u.
+Proof.
+  intros fuel evs st h h1 t u h2 Hr Hh. exact (startup_order _ _ _ _ _ _ _ Hr Hh).
+Qed.
+
+(* the same for any state, reachable or not *)
+Theorem schedule_sleeps_into_future : forall st st' o u,
+  ms_schedule st = (st', o) -> ms_m_phase st' = MsPIdle (Some u) -> ms_m_now st' < u.
+Proof.
+  intros st st' o u. unfold ms_schedule.
+  destruct (ms_map_next_task st) as [[st1 o1] r] eqn:Em.
+  destruct r as [addr t|nb| |].
+  - unfold ms_start_task. destruct t; try (intros H; injection H as <- <-; cbn; discriminate).
+    all: match goal with |- context [ms_send_request ?a ?b ?c] =>
+           destruct (ms_send_request a b c) as [[st2 o2] s] end;
+      intros H; injection H as <- <-; cbn; discriminate.
+  - intros H; injection H as <- <-. cbn. intros E; inversion E; subst.
+    eapply map_next_task_future. exact Em.
+  - intros H; injection H as <- <-. cbn. discriminate.
+  - intros H; injection H as <- <-. cbn. discriminate.
+Qed.
+
+(* the loop of Association::next_task ends within two rounds (F15 repaired): a task whose start
+   fails is re-armed at least 1 ms ahead, so the second round answers NotBefore *)
+Lemma auto_failure_future c now s : exists b nx, ms_auto_failure c now s = MsAFailed b nx /\ now < nx.
+Proof.
+  unfold ms_auto_failure. destruct (ms_on_failure _ _) as [b d]. exists b, (now + ms_retry_delay d).
+  split; [reflexivity|]. unfold ms_retry_delay. lia.
+Qed.
+
+Theorem next_task_terminates : forall k now sys a,
+  exists r, snd (ms_assoc_next_task (S (S k)) now sys a) = Some r.
+Proof.
+  intros k now sys a. cbn [ms_assoc_next_task].
+  destruct (ms_get_next_task a now) as [|t|nb] eqn:Eg; try (eexists; reflexivity).
+  destruct (ms_task_start now sys t a) as [[a1 o1] [t1|]] eqn:Es; [eexists; reflexivity|].
+  (* only an automatic time synchronisation can fail to start *)
+  assert (Ht : exists tst, t = MsTTimeSync tst None /\
+                a1 = ms_set_auto a (ms_with_time (ms_a_auto a)
+                       (ms_auto_failure (ms_a_cfg a) now (ms_ts_time (ms_a_auto a))))).
+  { destruct (get_next_task_not_user _ _ _ Eg) as [Hu _].
+    unfold ms_task_start in Es.
+    destruct t as [| m | m | m | m | id m | tst p | m tok | tok | p]; try (inversion Es; fail).
+    destruct p as [tok|]; [discriminate Hu|]. exists tst. split; [reflexivity|].
+    destruct tst as [t0 | [ts|] | ts | ts]; try (inversion Es; fail);
+      destruct (ms_system_time sys now); inversion Es; reflexivity. }
+  destruct Ht as (tst & -> & ->).
+  destruct (auto_failure_future (ms_a_cfg a) now (ms_ts_time (ms_a_auto a))) as (b & nx & Ef & Hnx).
+  rewrite Ef.
+  (* second round: the same choice, now waiting for its retry time *)
+  pose proof (get_next_task_guards _ _ _ Eg) as [G1 _]. cbn [task_choice] in G1.
+  set (a1 := ms_set_auto a (ms_with_time (ms_a_auto a) (MsAFailed b nx))).
+  assert (E2 : ms_get_next_task a1 now = MsNNotBefore nx).
+  { unfold ms_get_next_task, ms_auto_next. cbn [a1 ms_set_auto ms_a_cfg ms_a_auto ms_a_events ms_with_time
+      ms_ts_clear ms_ts_disable ms_ts_integrity ms_ts_time ms_ts_enable ms_ts_evscan].
+    unfold auto_choice_of in G1.
+    destruct (ms_is_pending (ms_ts_clear (ms_a_auto a))); [discriminate|].
+    destruct (ms_ev_any (ms_c_disable (ms_a_cfg a)) && ms_is_pending (ms_ts_disable (ms_a_auto a))); [discriminate|].
+    destruct (ms_cl_any (ms_c_integrity (ms_a_cfg a)) && ms_is_pending (ms_ts_integrity (ms_a_auto a))); [discriminate|].
+    destruct (negb (N.eqb (ms_c_tsync (ms_a_cfg a)) 0)) eqn:Ets.
+    - cbn [ms_is_pending ms_is_idle negb andb ms_create_next].
+      destruct (nx <=? now) eqn:El; [apply Z.leb_le in El; lia|reflexivity].
+    - rewrite andb_false_r in G1.
+      destruct (ms_ev_any (ms_c_enable (ms_a_cfg a)) && ms_is_pending (ms_ts_enable (ms_a_auto a))); [discriminate|].
+      destruct (ms_ev_any _); discriminate. }
+  cbn [ms_assoc_next_task]. fold a1. rewrite E2. destruct k; eexists; reflexivity.
+Qed.
+
+(* before the repair the retry was armed for `now + d` with d the raw back-off delay: with
+   min_delay = 0 the failed task was due again at the same instant, for ever (F15) *)
+Theorem f15_zero_delay_respins : forall c now s t,
+  ms_c_rmin c = 0 -> 0 <= ms_c_rmax c ->
+  let unrepaired :=
+    let b0 := match s with
+              | MsAFailed b _ => b
+              | _ => ms_backoff_new {| ms_s_min := ms_c_rmin c; ms_s_max := ms_c_rmax c |}
+              end in
+    let '(b1, d) := ms_on_failure ms_limit_ms b0 in MsAFailed b1 (now + d) in
+  not_failed s -> ms_create_next unrepaired now t = MsNNow t.
+Proof.
+  intros c now s t Hmin Hmax unrepaired Hs. subst unrepaired.
+  destruct s; try contradiction; cbn; rewrite Hmin; cbn;
+    (destruct (now + 0 <=? now) eqn:E; [reflexivity|apply Z.leb_gt in E; lia]).
+Qed.
+
+(* ================================================================================================
+   8. C19 — the scheduling decisions (for every state, reachable or not)
+   ================================================================================================ *)
+
+(* ---- user requests: FIFO per association, ahead of everything else ---------------------------------- *)
+
+Lemma queue_task_appends now tok uk a a' o :
+  ms_queue_task now true tok uk a = (a', o) -> (length (ms_a_queue a) < ms_c_maxq (ms_a_cfg a))%nat ->
+  ms_a_queue a' = ms_a_queue a ++ [(tok, uk)] /\ o = [].
+Proof.
+  unfold ms_queue_task. intros H Hl. apply Nat.ltb_lt in Hl. rewrite Hl in H. inversion H; subst. split; reflexivity.
+Qed.
+
+Lemma priority_task_front now sys : forall q a a' o t,
+  ms_priority_task now sys q a = (a', o, Some t) ->
+  exists q1 tok uk q2 a0 o0, q = q1 ++ (tok, uk) :: q2 /\ ms_a_queue a' = q2 /\
+    ms_task_start now sys (ms_user_task tok uk) a0 = (a0, o0, Some t) /\
+    Forall (fun r => exists b b' ob, ms_task_start now sys (ms_user_task (fst r) (snd r)) b = (b', ob, None)) q1.
+Proof.
+  induction q as [|[tok uk] q IH]; intros a a' o t; cbn [ms_priority_task]; [intros H; inversion H|].
+  destruct (ms_task_start now sys (ms_user_task tok uk) a) as [[a1 o1] [t'|]] eqn:Es.
+  - intros H; inversion H; subst.
+    pose proof (task_start_shape _ _ _ _ _ _ _ Es) as (-> & -> & _).
+    exists [], tok, uk, q, a, []. repeat split; auto.
+  - destruct (ms_priority_task now sys q a1) as [[a2 o2] r2] eqn:Ep.
+    intros H; inversion H; subst.
+    destruct (IH _ _ _ _ Ep) as (q1 & tok' & uk' & q2 & a0 & o0 & -> & E2 & E3 & F).
+    exists ((tok, uk) :: q1), tok', uk', q2, a0, o0. repeat split; auto.
+    constructor; [|exact F]. cbn. eauto.
+Qed.
+
+Lemma priority_task_none now sys : forall q a a' o,
+  ms_priority_task now sys q a = (a', o, None) -> ms_a_queue a' = [].
+Proof.
+  induction q as [|[tok uk] q IH]; intros a a' o; cbn [ms_priority_task].
+  - intros H; inversion H; reflexivity.
+  - destruct (ms_task_start now sys (ms_user_task tok uk) a) as [[a1 o1] [t'|]]; [intros H; inversion H|].
+    destruct (ms_priority_task now sys q a1) as [[a2 o2] r2] eqn:Ep.
+    intros H; inversion H; subst. eapply IH; exact Ep.
+Qed.
+
+Lemma find_put_other addr a1 l : ms_a_addr a1 <> addr ->
+  ms_find_assoc addr (ms_put_assoc a1 l) = ms_find_assoc addr l.
+Proof.
+  intros Hne. induction l as [|x l IH]; [reflexivity|]. cbn [ms_put_assoc].
+  destruct (N.eqb (ms_a_addr x) (ms_a_addr a1)) eqn:E; cbn [ms_find_assoc].
+  - apply N.eqb_eq in E. rewrite E.
+    destruct (N.eqb (ms_a_addr a1) addr) eqn:E2; [apply N.eqb_eq in E2; contradiction|reflexivity].
+  - rewrite IH. reflexivity.
+Qed.
+
+(* when the first pass of AssociationMap::next_task finds nothing, no association of the ring has
+   a queued user request left *)
+Lemma priority_pass_none : forall ring st st' o,
+  ms_priority_pass st ring = (st', o, None) ->
+  forall addr a, In addr ring -> ms_find_assoc addr (ms_m_assocs st') = Some a -> ms_a_queue a = [].
+Proof.
+  induction ring as [|B ring IH]; intros st st' o; cbn [ms_priority_pass]; [intros _ addr a []|].
+  destruct (ms_find_assoc B (ms_m_assocs st)) as [b|] eqn:Ef.
+  - destruct (ms_priority_task _ _ _ b) as [[b1 o1] [t|]] eqn:Ep; [intros H; inversion H|].
+    destruct (ms_priority_pass _ ring) as [[st2 o2] r2] eqn:Er.
+    intros H; inversion H; subst. intros addr a [->|Hin] Hfa; [|eapply IH; eassumption].
+    (* B itself: emptied now; later rounds touch it only if B occurs again in the ring *)
+    pose proof (priority_task_none _ _ _ _ _ _ Ep) as Hq.
+    destruct (in_dec N.eq_dec addr ring) as [Hin|Hnin]; [eapply IH; eassumption|].
+    assert (G : forall ring st st' o r, ms_priority_pass st ring = (st', o, r) -> ~ In addr ring ->
+                ms_find_assoc addr (ms_m_assocs st') = ms_find_assoc addr (ms_m_assocs st)).
+    { clear. induction ring as [|C ring IH]; intros st st' o r; cbn [ms_priority_pass].
+      - intros H; inversion H; reflexivity.
+      - intros H Hn. destruct (ms_find_assoc C (ms_m_assocs st)) as [c|] eqn:Ec.
+        + pose proof (find_assoc_some _ _ _ Ec) as [_ Eaddr].
+          destruct (ms_priority_task _ _ _ c) as [[c1 o1] [t|]] eqn:Ep;
+            pose proof (priority_task_LS _ _ _ _ _ _ _ Ep) as [(LA & _) _].
+          * injection H as <- <- <-. cbn. apply find_put_other. rewrite LA, Eaddr. intros E; apply Hn; left; exact E.
+          * destruct (ms_priority_pass _ ring) as [[st2 o2] r2] eqn:Er. injection H as <- <- <-.
+            rewrite (IH _ _ _ _ Er) by (intros E; apply Hn; right; exact E).
+            cbn. apply find_put_other. rewrite LA, Eaddr. intros E; apply Hn; left; exact E.
+        + eapply IH; [exact H|intros E; apply Hn; right; exact E]. }
+    rewrite (G _ _ _ _ _ Er Hnin) in Hfa. cbn in Hfa.
+    pose proof (find_assoc_some _ _ _ Ef) as [Ib Eb].
+    pose proof (priority_task_LS _ _ _ _ _ _ _ Ep) as [(LA & _) _].
+    rewrite find_put in Hfa; [inversion Hfa; subst; exact Hq| |congruence].
+    rewrite <- Eb. apply in_map. exact Ib.
+  - intros H addr a [->|Hin] Hfa; [|eapply IH; eassumption].
+    destruct (in_dec N.eq_dec addr ring) as [Hin|Hnin]; [eapply IH; eassumption|].
+    exfalso.
+    assert (G : forall ring st st' o r, ms_priority_pass st ring = (st', o, r) ->
+                ms_find_assoc addr (ms_m_assocs st) = None -> ms_find_assoc addr (ms_m_assocs st') = None).
+    { clear. induction ring as [|C ring IH]; intros st st' o r; cbn [ms_priority_pass].
+      - intros H; inversion H; auto.
+      - intros H Hn. destruct (ms_find_assoc C (ms_m_assocs st)) as [c|] eqn:Ec; [|eapply IH; eassumption].
+        pose proof (find_assoc_some _ _ _ Ec) as [_ Eaddr].
+        assert (Hne : C <> addr) by (intros ->; congruence).
+        destruct (ms_priority_task _ _ _ c) as [[c1 o1] [t|]] eqn:Ep;
+          pose proof (priority_task_LS _ _ _ _ _ _ _ Ep) as [(LA & _) _].
+        + injection H as <- <- <-. cbn. rewrite find_put_other; [exact Hn|congruence].
+        + destruct (ms_priority_pass _ ring) as [[st2 o2] r2] eqn:Er. injection H as <- <- <-.
+          eapply IH; [exact Er|]. cbn. rewrite find_put_other; [exact Hn|congruence]. }
+    rewrite (G _ _ _ _ _ H Ef) in Hfa. discriminate.
+Qed.
+
+(* C19, first sentence (decision form): a task that is not a user request is chosen only when no
+   association of the ring has a user request queued; within one association requests are
+   appended at the back (queue_task_appends) and taken from the front (priority_task_front) *)
+Theorem user_before_polls : forall st st' o addr t,
+  ms_map_next_task st = (st', o, MsSNow addr t) -> is_user_task t = false ->
+  exists st1 o1, ms_priority_pass st (ms_m_ring st) = (st1, o1, None) /\
+    forall B b, In B (ms_m_ring st) -> ms_find_assoc B (ms_m_assocs st1) = Some b -> ms_a_queue b = [].
+Proof.
+  intros st st' o addr t. unfold ms_map_next_task.
+  destruct (ms_priority_pass st (ms_m_ring st)) as [[st1 o1] [[a1 t1]|]] eqn:Ep.
+  - intros H Hu; inversion H; subst.
+    assert (Hut : forall ring st0 st2 o0, ms_priority_pass st0 ring = (st2, o0, Some (addr, t)) ->
+                  is_user_task t = true).
+    { clear. induction ring as [|B ring IH]; intros st0 st2 o0; cbn [ms_priority_pass]; [intros H; inversion H|].
+      destruct (ms_find_assoc B (ms_m_assocs st0)) as [b|]; [|apply IH].
+      destruct (ms_priority_task _ _ _ b) as [[b1 ob] [tb|]] eqn:Eq.
+      - intros H; inversion H; subst. eapply priority_task_user; exact Eq.
+      - destruct (ms_priority_pass _ ring) as [[st3 o3] r3] eqn:Er. intros H; inversion H; subst.
+        eapply IH; exact Er. }
+    rewrite (Hut _ _ _ _ Ep) in Hu.
+    congruence.
+  - intros _ _. exists st1, o1. split; [reflexivity|]. intros B b. eapply priority_pass_none. exact Ep.
+Qed.
+
+(* ---- periodic polls ---------------------------------------------------------------------------------- *)
+
+Lemma polls_next_from_now ps now e p : ms_polls_next_from ps now e = MsNNow p ->
+  In p ps /\ ms_p_next p <= now.
+Proof.
+  revert e. induction ps as [|q ps IH]; intros e; cbn [ms_polls_next_from].
+  - destruct e; discriminate.
+  - destruct (ms_p_next q <=? now) eqn:E.
+    + intros H; inversion H; subst. split; [left; reflexivity|apply Z.leb_le; exact E].
+    + intros H. destruct (IH _ H) as [I1 I2]. split; [right; exact I1|exact I2].
+Qed.
+
+(* a periodic poll is started only when it is due, and only when no automatic task is pending *)
+Theorem poll_due : forall a now id m,
+  ms_get_next_task a now = MsNNow (MsTPoll id m) ->
+  exists p, In p (ms_a_polls a) /\ ms_p_id p = id /\ ms_p_mask p = m /\ ms_p_next p <= now.
+Proof.
+  intros a now id m. unfold ms_get_next_task.
+  destruct (ms_auto_next _ _ _ _) as [|t|nb] eqn:Ea.
+  - destruct (ms_polls_next (ms_a_polls a) now) as [|p|np] eqn:Ep.
+    + unfold ms_link_next. destruct (ms_a_link_deadline a) as [nx|]; [destruct (nx <=? now)|]; discriminate.
+    + intros H; inversion H; subst. apply polls_next_from_now in Ep as [I1 I2]. exists p. auto.
+    + unfold ms_link_next. destruct (ms_a_link_deadline a) as [nx|]; [destruct (nx <=? now)|]; discriminate.
+  - intros H; inversion H; subst. apply auto_next_now in Ea as [_ Ea]. exfalso; apply Ea; reflexivity.
+  - discriminate.
+Qed.
+
+(* the next run of a poll is one period after its completion (success or failure alike), at once
+   when demanded, one period after it was added *)
+Lemma poll_complete_spec id now ps p : In p (ms_poll_complete id now ps) ->
+  exists p0, In p0 ps /\ ms_p_id p = ms_p_id p0 /\ ms_p_period p = ms_p_period p0 /\ ms_p_mask p = ms_p_mask p0 /\
+             ms_p_next p = if N.eqb (ms_p_id p0) id then now + ms_p_period p0 else ms_p_next p0.
+Proof.
+  unfold ms_poll_complete. intros H. apply in_map_iff in H as (p0 & <- & H0). exists p0. split; [exact H0|].
+  destruct (N.eqb (ms_p_id p0) id); cbn; auto.
+Qed.
+
+Lemma poll_demand_spec id now ps p : In p (ms_poll_set_next id now ps) ->
+  exists p0, In p0 ps /\ ms_p_id p = ms_p_id p0 /\ ms_p_period p = ms_p_period p0 /\
+             ms_p_next p = if N.eqb (ms_p_id p0) id then now else ms_p_next p0.
+Proof.
+  unfold ms_poll_set_next. intros H. apply in_map_iff in H as (p0 & <- & H0). exists p0. split; [exact H0|].
+  destruct (N.eqb (ms_p_id p0) id); cbn; auto.
+Qed.
+
+Theorem poll_cadence_partial :
+  (* completion, by success or by failure, re-arms the poll one period ahead *)
+  (forall now id m a a' o, ms_read_complete now (MsTPoll id m) a = (a', o) ->
+     ms_a_polls a' = ms_poll_complete id now (ms_a_polls a)) /\
+  (forall now id m e r a a' o, ms_task_error now (MsTPoll id m) e r a = (a', o) ->
+     ms_a_polls a' = ms_poll_complete id now (ms_a_polls a)) /\
+  (* a demand makes it due at once *)
+  (forall now id a a' o, ms_demand_poll now id a = (a', o) ->
+     ms_a_polls a' = ms_poll_set_next id now (ms_a_polls a)) /\
+  (* a new poll is due one period after it was added *)
+  (forall now period m a a' o, ms_add_poll now period m a = (a', o) ->
+     exists p, ms_a_polls a' = ms_a_polls a ++ [p] /\ ms_p_next p = now + period /\ ms_p_period p = period).
+Proof.
+  repeat split.
+  - intros now id m a a' o H; inversion H; reflexivity.
+  - intros now id m e r a a' o H; inversion H; reflexivity.
+  - intros now id a a' o H; inversion H; reflexivity.
+  - intros now period m a a' o H; inversion H; subst. eexists. split; [reflexivity|]. split; reflexivity.
+Qed.
+
+(* with nothing automatic pending, a due poll is what the association offers (it is not passed
+   over for the keep-alive), and its start cannot fail *)
+Theorem not_starved_partial : forall a now sys p k,
+  ms_auto_next (ms_a_cfg a) (ms_a_auto a) (ms_a_events a) now = MsNNone ->
+  ms_polls_next (ms_a_polls a) now = MsNNow p ->
+  ms_assoc_next_task (S k) now sys a = (a, [], Some (MsNNow (MsTPoll (ms_p_id p) (ms_p_mask p)))).
+Proof.
+  intros a now sys p k Ha Hp. cbn [ms_assoc_next_task]. unfold ms_get_next_task. rewrite Ha, Hp. reflexivity.
+Qed.
+
+(* ---- turns of the associations ------------------------------------------------------------------------ *)
+
+Lemma rotate_last ring a : exists r, ms_rotate ring a = r ++ [a] /\ ~ In a r.
+Proof.
+  unfold ms_rotate. eexists. split; [reflexivity|]. intros H. apply filter_In in H as [_ H].
+  rewrite N.eqb_refl in H. discriminate.
+Qed.
+
+Lemma rotate_others ring a : filter (fun x => negb (N.eqb x a)) (ms_rotate ring a) = filter (fun x => negb (N.eqb x a)) ring.
+Proof.
+  unfold ms_rotate. rewrite filter_app. cbn. rewrite N.eqb_refl. cbn. rewrite app_nil_r.
+  induction ring as [|x r IH]; [reflexivity|]. cbn. destruct (negb (N.eqb x a)) eqn:E; cbn; rewrite ?E, IH; reflexivity.
+Qed.
+
+(* the association that is served moves to the back of the ring; the others keep their order *)
+Theorem round_robin_partial : forall st st' o addr t,
+  ms_map_next_task st = (st', o, MsSNow addr t) ->
+  exists st0, ms_m_ring st' = ms_rotate (ms_m_ring st0) addr /\ ms_m_ring st0 = ms_m_ring st.
+Proof.
+  assert (P : forall ring st st' o addr t, ms_priority_pass st ring = (st', o, Some (addr, t)) ->
+            ms_m_ring st' = ms_rotate (ms_m_ring st) addr).
+  { induction ring as [|B ring IH]; intros st st' o addr t; cbn [ms_priority_pass]; [intros H; inversion H|].
+    destruct (ms_find_assoc B (ms_m_assocs st)) as [b|]; [|apply IH].
+    destruct (ms_priority_task _ _ _ b) as [[b1 ob] [tb|]].
+    - intros H; inversion H; subst. reflexivity.
+    - destruct (ms_priority_pass _ ring) as [[st2 o2] r2] eqn:Er. intros H; inversion H; subst.
+      rewrite (IH _ _ _ _ _ Er). reflexivity. }
+  assert (PN : forall ring st st' o, ms_priority_pass st ring = (st', o, None) -> ms_m_ring st' = ms_m_ring st).
+  { induction ring as [|B ring IH]; intros st st' o; cbn [ms_priority_pass]; [intros H; inversion H; reflexivity|].
+    destruct (ms_find_assoc B (ms_m_assocs st)) as [b|]; [|apply IH].
+    destruct (ms_priority_task _ _ _ b) as [[b1 ob] [tb|]]; [intros H; inversion H|].
+    destruct (ms_priority_pass _ ring) as [[st2 o2] r2] eqn:Er. intros H; inversion H; subst.
+    rewrite (IH _ _ _ Er). reflexivity. }
+  assert (A : forall ring st e st' o addr t, ms_auto_pass st ring e = (st', o, MsSNow addr t) ->
+            ms_m_ring st' = ms_rotate (ms_m_ring st) addr).
+  { induction ring as [|B ring IH]; intros st e st' o addr t; cbn [ms_auto_pass].
+    - destruct e; intros H; inversion H.
+    - destruct (ms_find_assoc B (ms_m_assocs st)) as [b|]; [|apply IH].
+      destruct (ms_assoc_next_task 3 _ _ b) as [[b1 ob] [[|tb|nb]|]].
+      + destruct (ms_auto_pass _ ring e) as [[st2 o2] r2] eqn:Er. intros H; inversion H; subst.
+        rewrite (IH _ _ _ _ _ _ Er). reflexivity.
+      + intros H; inversion H; subst. reflexivity.
+      + destruct (ms_auto_pass _ ring _) as [[st2 o2] r2] eqn:Er. intros H; inversion H; subst.
+        rewrite (IH _ _ _ _ _ _ Er). reflexivity.
+      + intros H; inversion H. }
+  intros st st' o addr t. unfold ms_map_next_task.
+  destruct (ms_priority_pass st (ms_m_ring st)) as [[st1 o1] [[a1 t1]|]] eqn:Ep.
+  - intros H; inversion H; subst. exists st. split; [eapply P; exact Ep|reflexivity].
+  - destruct (ms_auto_pass st1 (ms_m_ring st1) None) as [[st2 o2] r2] eqn:Ea.
+    intros H; inversion H; subst. exists st1. split; [eapply A; exact Ea|eapply PN; exact Ep].
+Qed.
+
+(* ---- keep-alive ------------------------------------------------------------------------------------------ *)
+
+(* a keep-alive is sent only when the deadline of the association has passed and nothing else is
+   pending; the deadline is always `keep-alive timeout` after the registration of the association
+   or after the last fragment received from it *)
+Theorem keepalive_after_silence_partial :
+  (forall a now, ms_get_next_task a now = MsNNow (MsTLink None) ->
+     exists dl, ms_a_link_deadline a = Some dl /\ dl <= now) /\
+  (forall now a, ms_a_link_deadline (ms_link_activity now a)
+                 = option_map (fun ka => now + ka) (ms_c_keepalive (ms_a_cfg a))) /\
+  (forall addr c now, ms_a_link_deadline (ms_assoc_new addr c now) = option_map (fun ka => now + ka) (ms_c_keepalive c)) /\
+  (forall st src a, ms_find_assoc src (ms_m_assocs st) = Some a ->
+     ms_find_assoc src (ms_m_assocs (ms_touch st src)) = Some (ms_link_activity (ms_m_now st) a)).
+Proof.
+  repeat split.
+  - intros a now. unfold ms_get_next_task.
+    destruct (ms_auto_next _ _ _ _) as [|t|nb] eqn:Ea.
+    + assert (L : ms_link_next a now = MsNNow (MsTLink None) -> exists dl, ms_a_link_deadline a = Some dl /\ dl <= now).
+      { unfold ms_link_next. destruct (ms_a_link_deadline a) as [nx|]; [|discriminate].
+        destruct (nx <=? now) eqn:E; [|discriminate]. intros _. exists nx. split; [reflexivity|apply Z.leb_le; exact E]. }
+      destruct (ms_polls_next _ _) as [|p|np]; [exact L|discriminate|].
+      destruct (ms_link_next a now) as [|x|nl] eqn:El; try discriminate. intros H; inversion H; subst. apply L. reflexivity.
+    + intros H; inversion H; subst. apply auto_next_now in Ea as [_ Ea]. exfalso; apply Ea; reflexivity.
+    + discriminate.
+  - intros. apply touch_find. assumption.
+Qed.
